@@ -104,6 +104,11 @@ pub fn check(prop: &str, tier: &str) -> i32 {
             rep.stub_components = strs(STUB_E1);
             rep.assumptions = vec!["spec changes stay on one side of Spurious Dragon (the state-clear flag of the database layers is the embedder's job)".into(), "C22: histories in which the beneficiary is a party of a transaction are not compared (the twins may legitimately diverge)".into()];
             rep.run_engine(&TwinSim { mode: prop.into() }, scale(tier, 200_000, 4_000_000), &findings);
+            #[cfg(feature = "optimism")]
+            if prop == "C22" {
+                rep.real_components.push("revm optimism handler register (Handler::optimism_with_spec(spec, reward)), fee vault credits".into());
+                rep.run_engine(&crate::op_sim::OpRewardSim, scale(tier, 150_000, 3_000_000), &findings);
+            }
         }
         "C15" | "C16" | "C17" | "C18" | "C19" => {
             rep.rule = "seeded histories of 1-6 transition groups (0-3 real EVM transactions each over a generated world with CREATE2 factories, self-destructs, storage writes, plus increment_balances / drain_balances) committed into a State with bundle tracking over the simulated disk; the scheduler decides merge points (one per group), flush points (take_bundle + changeset applied to the durable disk), crashes (Evm and State dropped, rebuilt over the durable disk, lost groups re-executed), the split point for extend / preloaded bundle and database faults (inside a transaction, inside increment_balances); oracles: reads vs reference plain state after every group and State vs CacheDB results (C15), pre-state + changeset(Yes/No) = post-state (C16), revert walk group by group and bundle.revert(j) for every j (C17), A.extend(B) / take_n_reverts / prepend_state vs the monolithic bundle (C18), State with a preloaded bundle vs State over the merged disk (C19); distinct by the hash of (spec, execution results)".into();
@@ -164,7 +169,7 @@ pub fn check(prop: &str, tier: &str) -> i32 {
             rep.run_engine(&AdtSim { focus: prop.into() }, scale(tier, 400_000, 20_000_000), &findings);
         }
         "C21" => {
-            rep.rule = "collision matrix drawn per run: target pre-state {absent, code, nonce, storage only, balance only, nonce+storage} x layer stack {Raw, CacheDB, State, State+bundle, WrapDatabaseRef, WrapDatabaseRef<CacheDB>, CacheDB<CacheDB>, State<CacheDB>, Box<State<Box>>} (+ storage inserted into the CacheDB) x {CREATE, CREATE2, create transaction} x spec x {target touched by an earlier transaction or not} x value; a cell is distinct by (spec, layer, target state, kind, warm-up, value, lazy code)".into();
+            rep.rule = "collision matrix drawn per run: target pre-state {absent, code, nonce, storage only, balance only, nonce+storage} x layer stack {Raw, CacheDB, State, State+bundle, WrapDatabaseRef, WrapDatabaseRef<CacheDB>, CacheDB<CacheDB>, State<CacheDB>, Box<State<Box>>} (+ storage inserted into the CacheDB) x {CREATE, CREATE2, create transaction, EOFCREATE, EOF create transaction (the two EOF kinds under OSAKA)} x spec x {target touched by an earlier transaction or not} x value; a cell is distinct by (spec, layer, target state, kind, warm-up, value, lazy code)".into();
             rep.real_components = strs(REAL_E1);
             rep.stub_components = strs(STUB_E1);
             rep.assumptions = vec!["EIP-7610 is applied for every spec, as the property states".into(), "CREATE/CREATE2 cells run from Tangerine/Petersburg on (before EIP-150 a failed create leaves the caller without gas)".into()];
@@ -212,6 +217,8 @@ pub fn replay(path: &str) -> i32 {
         "statesim" => replay_with(&StateSim { focus }, &rf),
         "adtsim" => replay_with(&AdtSim { focus }, &rf),
         "wrapsim" => replay_with(&WrapSim, &rf),
+        #[cfg(feature = "optimism")]
+        "opsim" if focus == "C22" => replay_with(&crate::op_sim::OpRewardSim, &rf),
         #[cfg(feature = "optimism")]
         "opsim" => replay_with(&crate::op_sim::OpSim, &rf),
         "interpsim" => replay_with(&InterpSim { eof_corpus: Default::default() }, &rf),
